@@ -144,6 +144,15 @@ def structured_scalar(r, n, allow_neg=True, hi_mult=4):
     """Scalars that stress recoding and reduction: dense around 0, n, 2n on
     small n; bit patterns; random up to hi_mult*n; negatives."""
     c = r.randrange(13)
+    if c == 12 and r.random() < 0.08:
+        # thousands of bits (far beyond any fixed-width recoding)
+        v = (1 << r.choice([600, 1100, 2080, 2083, 2084, 2090, 3000, 4100])) \
+            + r.choice([-1, 0, 1, r.getrandbits(64)])
+        if r.random() < 0.3:
+            v = r.getrandbits(r.choice([2100, 3000]))
+        if allow_neg and r.random() < 0.4:
+            v = -v
+        return v
     if c == 12:
         # far outside the reduction window, both signs
         v = r.choice([r.randrange(4 * n, 64 * n + 1),
